@@ -534,6 +534,29 @@ def check_osdd_array(case, cc):
                     cc.dev('array-inplace==elementwise', 'element:%s:%s' % (dt, kind), 'convert_array_inplace on %s %r -> %r element %d: %r -> %r exact %r bound %g' % (
                         dt, c1, c2, i, v, g, float(w), b))
                     break
+    # the copying route with arrays of whole numbers (integer dtypes, as integer channels of a frame array have): the result
+    # equals the element-wise scalar conversion, it is not cut back to whole numbers
+    if values:
+        for dt, lo, hi in (('int32', -2 ** 31, 2 ** 31 - 1), ('uint16', 0, 65535), ('int64', -2 ** 62, 2 ** 62)):
+            ints = [max(lo, min(hi, int(v))) if abs(v) < 1e18 else (hi if v > 0 else lo) for v in values]
+            arr = np.array(ints, dtype=dt).reshape(shape)
+            try:
+                out = U.convert_array(arr, u1, u2)
+            except Exception as err:  # noqa
+                cc.unexpected(err, oracle='array-copy==elementwise')
+                break
+            cc.cls('array-copy-of-' + dt)
+            got = [float(x) for x in np.asarray(out).reshape(-1)]
+            if len(got) != len(ints) or [int(x) for x in arr.reshape(-1)] != ints:
+                cc.dev('array-copy==elementwise', 'integer-array:shape-or-input-changed', 'convert_array on %s: %d results for %d values' % (dt, len(got), len(ints)))
+                break
+            for i, (v, g) in enumerate(zip(ints, got)):
+                w = f(float(v))
+                b = ref.bound(float(v), s1, o1, s2, o2)
+                if not ref.within(g, w, b):
+                    cc.dev('array-copy==elementwise', 'element:%s:%s' % (dt, kind), 'convert_array on %s %r -> %r element %d: %r -> %r exact %r bound %g' % (
+                        dt, c1, c2, i, v, g, float(w), b))
+                    break
     n = len(values)
     cc.nt(_nontrivial_pair(table, c1, c2) and n >= 2)
     cc.cls('array-offset-pair', kind == 'with-offset' and n >= 1)
